@@ -51,7 +51,8 @@ DecStr(hi, lo) ==
   IF hi = 0 /\ lo < 10 THEN Digit(lo)
   ELSE LET qh == hi \div 10
            t  == (hi % 10) * 65536 + lo
-       IN DecStr(qh, t \div 10) \o Digit(t % 10)
+           ql == t \div 10
+       IN DecStr(qh, ql) \o Digit(t % 10)
 
 NatStr(n) == DecStr(n \div 65536, n % 65536)
 
@@ -101,7 +102,8 @@ RECURSIVE SortSet(_)
 SortSet(S) ==
   IF S = {} THEN <<>>
   ELSE LET m == CHOOSE x \in S : \A y \in S : y = x \/ ValLess(x, y)
-       IN <<m>> \o SortSet(S \ {m})
+           rest == S \ {m}
+       IN <<m>> \o SortSet(rest)
 
 \* ------------------------------------------------------------------ text of a value: Rust's Display ("{}")
 \* tr = node table of the syntax tree (for syntax-node references)
